@@ -754,6 +754,11 @@ class Interp:
         suppressed = []
         if any(isinstance(self._peek_instance_cm(item, frame), Instance) for item in st.items):
             return self.with_instances(st, frame, 0)
+        if any(isinstance(item.context_expr, ast.Call) for item in st.items):
+            vals = [self.eval(item.context_expr, frame) for item in st.items]
+            if any(isinstance(v, GenContext) for v in vals):
+                return self.with_values(st, frame, vals, 0)
+            return self.with_entered(st, frame, vals)
         for item in st.items:
             v = self.eval(item.context_expr, frame)
             entered = self.models.enter_context(self, v, st)
@@ -776,6 +781,64 @@ class Interp:
                     self.event('caught', exc=r.exc.tname, handler=st, node=r.node)
                     return
             raise
+
+    def with_entered(self, st, frame, vals):
+        """the rest of st_With for already evaluated context expressions (none of them generator based)"""
+        suppressed = []
+        for item, v in zip(st.items, vals):
+            entered = self.models.enter_context(self, v, st)
+            if getattr(v, 'suppresses', None):
+                suppressed.extend(v.suppresses)
+            if item.optional_vars is not None:
+                self.assign(item.optional_vars, entered, frame, st)
+        if not suppressed:
+            self.exec_block(st.body, frame)
+            return
+        try:
+            self.exec_block(st.body, frame)
+        except AbsRaise as r:
+            for x in suppressed:
+                name = x.tname if isinstance(x, ExcType) else (x.name if isinstance(x, ClassVal) else None)
+                if name is None:
+                    self.fail(f'contextlib.suppress of {x!r}', st)
+                if exc_isa(r.exc.tname, name):
+                    self.event('caught', exc=r.exc.tname, handler=st, node=r.node)
+                    return
+            raise
+
+    def with_values(self, st, frame, vals, i):
+        """with-statement in which some context managers come from @contextlib.contextmanager generators: the generator runs to its yield on entry
+        and is resumed on exit - with the exception thrown in at the yield if the body raised (swallowed if the generator then ends normally)"""
+        if i == len(vals):
+            return self.exec_block(st.body, frame)
+        item, v = st.items[i], vals[i]
+        if not isinstance(v, GenContext):
+            entered = self.models.enter_context(self, v, st)
+            if getattr(v, 'suppresses', None):
+                self.fail('contextlib.suppress next to a generator-based context manager not modelled', st)
+            if item.optional_vars is not None:
+                self.assign(item.optional_vars, entered, frame, st)
+            return self.with_values(st, frame, vals, i + 1)
+        g = v.gen
+        if not g.pull(st):
+            raise AbsRaise(ExcVal('RuntimeError', ("generator didn't yield",)), st)
+        entered = g.items[-1]
+        g.pos = len(g.items)
+        if item.optional_vars is not None:
+            self.assign(item.optional_vars, entered, frame, st)
+        try:
+            self.with_values(st, frame, vals, i + 1)
+        except AbsRaise as r:
+            if g.throw(r, st):
+                raise AbsRaise(ExcVal('RuntimeError', ("generator didn't stop after throw()",)), st)
+            self.event('caught', exc=r.exc.tname, handler=st, node=r.node)
+            return
+        except (_Return, _Break, _Continue):
+            if g.pull(st):
+                raise AbsRaise(ExcVal('RuntimeError', ("generator didn't stop",)), st)
+            raise
+        if g.pull(st):
+            raise AbsRaise(ExcVal('RuntimeError', ("generator didn't stop",)), st)
 
     def _peek_instance_cm(self, item, frame):
         """is the context expression a plain name bound to an instance of a repository class with __enter__ / __exit__? (names only: nothing is
@@ -1239,7 +1302,13 @@ class Interp:
             stp = self.eval(sl.step, frame) if sl.step is not None else None
             return slice(lo, hi, stp)
         if isinstance(sl, ast.Tuple):
-            return tuple(self.eval_index(e, frame) for e in sl.elts)
+            out = []
+            for e in sl.elts:
+                if isinstance(e, ast.Starred):
+                    out.extend(self.iterate(self.eval(e.value, frame), e))
+                else:
+                    out.append(self.eval_index(e, frame))
+            return tuple(out)
         return self.eval(sl, frame)
 
     def ex_Slice(self, node, frame):
@@ -1730,6 +1799,10 @@ class Interp:
         self.live = live
         if g._closing:
             raise _GenClose()
+        thrown = getattr(g, '_throw', None)
+        if thrown is not None:
+            g._throw = None
+            raise thrown                # generator.throw(): the exception appears at the yield
 
     def ex_YieldFrom(self, node, frame):
         v = self.eval(node.value, frame)
@@ -1916,6 +1989,12 @@ class GenResult:
         return f'<generator result {len(self.items)} items>'
 
 
+class GenContext:
+    """what a function decorated with contextlib.contextmanager returns when called: a context manager around a fresh generator"""
+    def __init__(self, gen):
+        self.gen = gen
+
+
 class _GenClose(BaseException):
     """unwinds the body of a generator the analyser closes (the consumer is gone)"""
 
@@ -1994,6 +2073,13 @@ class LazyGen(GenResult):
     def drain(self, node=None):
         while self.pull(node):
             pass
+
+    def throw(self, exc, node=None):
+        """generator.throw(exc): True if the generator yielded again, False if it finished; what it raises propagates"""
+        if self.done or self._thread is None:
+            raise exc
+        self._throw = exc
+        return self.pull(node)
 
     def close(self):
         if self._thread is not None and not self._finished:
